@@ -21,9 +21,15 @@ EVIDENCE = {
             'geometry (page size 16..2048 incl. non powers of two and multiples of 25, 1-16 buffer pages, flash size, '
             'start page), image lengths from 1 byte to several buffer-fulls incl. exact multiples of page and buffer size, '
             'optional page_override, oversize images; every flash-write command gets an outcome '
-            '{ok, request lost, reply lost, negative reply}.',
+            '{ok, request lost, reply lost, negative reply}; in the chatter modes unrelated packets (console text, late '
+            'info / read-flash replies, the other target\'s flash-write replies) keep arriving every 0.1-2 s while commands '
+            'wait for their answer.  A quarter of the runs go through the public Bootloader.flash(file, targets) with a real '
+            'temporary .bin or .zip (manifest v1/v2; firmware for the STM32 and the nRF51 in either order) against a target '
+            'pair with independent geometries: per-image oracle, no image for a target = that flash untouched, nothing '
+            'flashed after the first failing image.',
     'directed': 'all outcome patterns {ok, reply lost, negative} of the first k flash-write commands (k=4 quick, 6 thorough) '
-                'plus "every command unanswered"',
+                'plus "every command unanswered"; unanswered / late-answered commands under chatter at periods 0.1, 1.0, '
+                '2.4 and 3.0 s (around the 2.5 s reply time-out)',
     'real': ['Bootloader._internal_flash', 'Cloader._update_info/_update_mapping/upload_buffer/write_flash', 'CRTPPacket',
              'boottypes'],
     'stub': ['SimLink', 'SimBootTarget (info, buffer load, flash write, mapping)'],
@@ -31,7 +37,8 @@ EVIDENCE = {
         'buffer-load packets are unacknowledged by protocol and are never dropped; flash-write replies are lost or '
         'negative, never merely late',
         'bytes of the last flash page beyond the end of the image are unspecified (whole pages are written)',
-        'the public flash() entry point (zip/bin handling) is not exercised; _internal_flash is what it calls per artifact',
+        'public flash(): soft-device / bootloader artifacts, deck targets and warm boot are not exercised (nRF51 images '
+        'declare the soft-device the target already runs)',
     ],
 }
 
